@@ -357,6 +357,19 @@ Proof.
   apply in_or_app. right. left. reflexivity.
 Qed.
 
+Definition cons_seg_ok (s : str) : Prop := seg_ok s /\ ~ In 34 s /\ ~ In 62 s /\ merge_cell s = s.
+Lemma cons_seg_okb_ok : forall s, cons_seg_okb s = true -> cons_seg_ok s.
+Proof.
+  intros s H. unfold cons_seg_okb in H. apply andb_true_iff in H. destruct H as [H H3].
+  apply andb_true_iff in H. destruct H as [H1 H2]. apply negb_true_iff in H2, H3.
+  split; [apply seg_okb_ok, H1|].
+  assert (forall x, (x = 34 \/ x = 62) -> ~ In x s) as N.
+  { intros x Hx I. assert (existsb (fun c => (c =? 34) || (c =? 62)) s = true) as E; [|congruence].
+    apply existsb_exists. exists x. split; [exact I|]. destruct Hx as [-> | ->]; reflexivity. }
+  split; [apply N; left; reflexivity|]. split; [apply N; right; reflexivity|].
+  unfold merge_cell. rewrite H3. reflexivity.
+Qed.
+
 (* the guard, unpacked *)
 Record msa_ok (m : msa) (n : nat) : Prop := {
   mo_ids : length (m_ids m) = length (m_alm m);
@@ -368,7 +381,7 @@ Record msa_ok (m : msa) (n : nat) : Prop := {
   mo_nz : Forall (fun i => i <> 0) (m_ids m);
   mo_local : incr_fromb 0 (m_local m) = true /\ forallb (fun i => (i <? n)%nat) (m_local m) = true;
   mo_swaps : swaps_okb 0 n (m_swaps m) = true;
-  mo_cons : m_cons m = None }.
+  mo_cons : match m_cons m with None => True | Some c => length c = n /\ Forall cons_seg_ok c end }.
 
 Lemma msa_okb_ok : forall m, msa_okb m = true -> msa_ok m (length (hd [] (m_alm m))).
 Proof.
@@ -387,7 +400,9 @@ Proof.
     apply negb_true_iff in K3. lia.
   - split; assumption.
   - exact K0.
-  - destruct (m_cons m); [discriminate K|reflexivity].
+  - destruct (m_cons m) as [c|]; [|exact I].
+    apply andb_true_iff in K. destruct K as [L F]. split; [apply Nat.eqb_eq, L|].
+    apply Forall_forall. intros s Is. rewrite forallb_forall in F. apply cons_seg_okb_ok, F, Is.
 Qed.
 
 Lemma msa_n_eq : forall m n, msa_ok m n -> msa_n m = n.
@@ -457,70 +472,93 @@ Proof.
 Qed.
 
 (* ------------------------------------------------------------------ *)
+Lemma list2msa_consensus : forall vals rest a,
+  list2msa ((s_zero :: s_CONSENSUS :: vals) :: rest) a
+  = list2msa rest (mk_msa_read (r_ids a) (r_taxa a) (r_alm a) (r_seqs a) (r_local a) (r_swaps a) (Some vals)).
+Proof. reflexivity. Qed.
+
+Lemma const_notab : forall (name : str), forallb (fun c => negb (c =? 9)) name = true -> ~ In 9 name.
+Proof. intros name H I. rewrite forallb_forall in H. specialize (H 9 I). discriminate H. Qed.
+
 (* ONE BLOCK: what _list2msa makes of the lines msa2str wrote *)
 Theorem msa_body_roundtrip : forall stamp m, msa_okb m = true -> Forall (fun l => starts 35 l = true) stamp ->
   read_msa_body (msa_body stamp m) = Ok (expected_read m).
 Proof.
   intros stamp m H FS. pose proof (msa_okb_ok m H) as OK. set (n := length (hd [] (m_alm m))) in *.
-  unfold read_msa_body, msa_lines, msa_body. rewrite (msa_n_eq m n OK). rewrite (mo_cons _ _ OK).
+  pose proof (mo_n _ _ OK) as N1.
+  unfold read_msa_body, msa_lines, msa_body. rewrite (msa_n_eq m n OK).
   set (w := fmt_width (m_taxa m)).
   set (rows := zip3 (m_ids m) (m_taxa m) (m_alm m)).
   set (col := ann_line w s_COLUMNID (map (fun i => show_nat (Z.of_nat (S i))) (seq 0 n))).
+  set (Lp := if nullb (m_local m) then [] else [ann_line w s_LOCAL (local_cells n (m_local m))]).
+  set (Sp := if nullb (m_swaps m) then [] else [ann_line w s_CROSSED (swap_cells n (m_swaps m))]).
+  set (Cp := match m_cons m with
+             | Some (x :: c) => [ann_line w s_CONSENSUS (cons_cells n (x :: c))]
+             | _ => []
+             end).
   assert (BODY : forall X : list str, match stamp ++ [35] :: X with [] => [[]] | _ :: _ => stamp ++ [35] :: X end = stamp ++ [35] :: X).
   { intros X. destruct stamp; reflexivity. }
   rewrite BODY. rewrite filter_comments by exact FS.
+  assert (NC : forall nm cells, starts 35 (ann_line w nm cells) = false) by reflexivity.
+  assert (FL : filter (fun l => negb (starts 35 l)) Lp = Lp).
+  { unfold Lp. destruct (nullb (m_local m)); [reflexivity|]. cbn [filter]. rewrite NC. reflexivity. }
+  assert (FSp : filter (fun l => negb (starts 35 l)) Sp = Sp).
+  { unfold Sp. destruct (nullb (m_swaps m)); [reflexivity|]. cbn [filter]. rewrite NC. reflexivity. }
+  assert (FC : filter (fun l => negb (starts 35 l)) Cp = Cp).
+  { unfold Cp. destruct (m_cons m) as [[|x c]|]; reflexivity. }
+  cbn [filter]. change (starts 35 [35]) with true. cbn [negb].
+  unfold col at 1. rewrite NC. cbn [negb]. fold col.
+  rewrite !filter_app, FL, FSp, FC. cbn [filter]. change (starts 35 [35]) with true. cbn [negb].
+  rewrite filter_rows.
+  (* the COLUMNID line *)
   assert (COL : msa_cells col = s_zero :: s_COLUMNID :: map norm (map (fun i => show_nat (Z.of_nat (S i))) (seq 0 n))).
-  { unfold col. apply ann_cells; [reflexivity|discriminate| |  |].
-    - intros I. unfold s_COLUMNID in I. cbn [In] in I. repeat (destruct I as [I|I]; [discriminate I|]). exact I.
-    - pose proof (mo_n _ _ OK). destruct n; [lia|discriminate].
+  { unfold col. apply ann_cells; [reflexivity|discriminate|apply const_notab; reflexivity| |].
+    - destruct n; [lia|discriminate].
     - apply Forall_forall. intros c I. apply in_map_iff in I. destruct I as [i [<- _]]. apply show_nat_notab. lia. }
-  assert (LOC : nullb (m_local m) = false ->
-          msa_cells (ann_line w s_LOCAL (local_cells n (m_local m))) = s_zero :: s_LOCAL :: map norm (local_cells n (m_local m))).
-  { intros _. apply ann_cells; [reflexivity|discriminate| | |].
-    - intros I. unfold s_LOCAL in I. cbn [In] in I. repeat (destruct I as [I|I]; [discriminate I|]). exact I.
-    - unfold local_cells. pose proof (mo_n _ _ OK). destruct n; [lia|discriminate].
-    - apply Forall_forall. intros c I. unfold local_cells in I. apply in_map_iff in I. destruct I as [i [<- _]].
-      destruct (existsb (Nat.eqb i) (m_local m)); intros [E|[]]; discriminate E. }
-  pose proof (swap_cells_length n (m_swaps m)) as SWL.
-  assert (SWC : Forall (fun c : str => ~ In 9 c) (swap_cells n (m_swaps m))).
-  { rewrite swap_cells_spec by apply (mo_swaps _ _ OK). apply spec_cells_notab. }
-  assert (SWP : nullb (m_swaps m) = false ->
-          msa_cells (ann_line w s_CROSSED (swap_cells n (m_swaps m))) = s_zero :: s_CROSSED :: map norm (swap_cells n (m_swaps m))).
-  { intros _. apply ann_cells; [reflexivity|discriminate| | |exact SWC].
-    - intros I. unfold s_CROSSED in I. cbn [In] in I. repeat (destruct I as [I|I]; [discriminate I|]). exact I.
-    - intros E. rewrite E in SWL. cbn [length] in SWL. pose proof (mo_n _ _ OK). lia. }
+  cbn [map]. rewrite COL, list2msa_columnid. rewrite !map_app.
+  (* the LOCAL line *)
+  set (a1 := mk_msa_read [] [] [] [] (m_local m) [] None).
+  assert (STL : forall rest, list2msa (map msa_cells Lp ++ rest) msa_read0 = list2msa rest a1).
+  { intros rest. unfold Lp, a1. destruct (nullb (m_local m)) eqn:EL.
+    - destruct (m_local m); [reflexivity|discriminate EL].
+    - cbn [map app]. rewrite ann_cells; [|reflexivity|discriminate|apply const_notab; reflexivity| |].
+      + rewrite list2msa_local. rewrite local_roundtrip by (destruct (mo_local _ _ OK); assumption). reflexivity.
+      + unfold local_cells. destruct n; [lia|discriminate].
+      + apply Forall_forall. intros c I. unfold local_cells in I. apply in_map_iff in I. destruct I as [i [<- _]].
+        destruct (existsb (Nat.eqb i) (m_local m)); intros [E|[]]; discriminate E. }
+  (* the CROSSED line *)
+  set (a2 := mk_msa_read [] [] [] [] (m_local m) (m_swaps m) None).
+  assert (STS : forall rest, list2msa (map msa_cells Sp ++ rest) a1 = list2msa rest a2).
+  { intros rest. unfold Sp, a1, a2. destruct (nullb (m_swaps m)) eqn:ES.
+    - destruct (m_swaps m); [reflexivity|discriminate ES].
+    - cbn [map app]. rewrite ann_cells; [|reflexivity|discriminate|apply const_notab; reflexivity| |].
+      + rewrite list2msa_crossed, swaps_roundtrip by apply (mo_swaps _ _ OK). reflexivity.
+      + intros E. pose proof (swap_cells_length n (m_swaps m)) as SWL. rewrite E in SWL. cbn [length] in SWL. lia.
+      + rewrite swap_cells_spec by apply (mo_swaps _ _ OK). apply spec_cells_notab. }
+  (* the CONSENSUS line *)
+  set (a3 := mk_msa_read [] [] [] [] (m_local m) (m_swaps m) (m_cons m)).
+  assert (STC : forall rest, list2msa (map msa_cells Cp ++ rest) a2 = list2msa rest a3).
+  { intros rest. unfold Cp, a2, a3. pose proof (mo_cons _ _ OK) as MC.
+    destruct (m_cons m) as [c|]; [|reflexivity]. destruct MC as [LC FCo].
+    destruct c as [|x c]; [cbn [length] in LC; lia|].
+    assert (CE : cons_cells n (x :: c) = x :: c).
+    { unfold cons_cells. rewrite LC, Nat.sub_diag. cbn [repeat]. rewrite app_nil_r.
+      rewrite <- (map_id (x :: c)) at 2. apply map_ext_in. intros s I. rewrite Forall_forall in FCo.
+      destruct (FCo s I) as [_ [_ [_ E]]]. exact E. }
+    cbn [map app]. rewrite CE. rewrite ann_cells; [|reflexivity|discriminate|apply const_notab; reflexivity|discriminate|].
+    + rewrite list2msa_consensus. cbn [r_ids r_taxa r_alm r_seqs r_local r_swaps].
+      assert (map norm (x :: c) = x :: c) as ->; [|reflexivity].
+      rewrite <- (map_id (x :: c)) at 2. apply map_ext_in. intros s I. rewrite Forall_forall in FCo.
+      destruct (FCo s I) as [SO _]. apply norm_seg, SO.
+    + eapply Forall_impl; [|exact FCo]. intros s [SO _]. apply seg_notab, SO. }
+  (* the rows *)
   destruct (zip3_unzip (m_ids m) (m_taxa m) (m_alm m) (mo_ids _ _ OK) (mo_taxa _ _ OK)) as [U1 [U2 U3]].
   pose proof (rows_ok_zip m n OK) as RO. fold rows in RO, U1, U2, U3.
-  assert (ROWS : forall a, r_ids a = [] -> r_taxa a = [] -> r_alm a = [] -> r_seqs a = [] -> r_cons a = None ->
-            list2msa (map msa_cells (map (msa_row_of w) rows)) a
-            = Ok (mk_msa_read (m_ids m) (m_taxa m) (m_alm m) (map degap (m_alm m)) (r_local a) (r_swaps a) None)).
-  { intros a E1 E2 E3 E4 E5. rewrite map_map. rewrite rows_fold by exact RO.
-    rewrite E1, E2, E3, E4, E5. cbn [app].
-    assert (map (fun p : Z * str * list str => degap (snd p)) rows = map degap (m_alm m)) as ->
-      by (rewrite <- U3, map_map; reflexivity).
-    rewrite U1, U2, U3. reflexivity. }
-  cbn [filter]. change (starts 35 [35]) with true. cbn [negb].
-  assert (NC : forall nm cells, starts 35 (ann_line w nm cells) = false) by reflexivity.
-  unfold col at 1. rewrite NC. cbn [negb]. fold col.
-  rewrite !filter_app. cbn [filter]. change (starts 35 [35]) with true. cbn [negb].
-  rewrite filter_rows.
-  unfold expected_read.
-  destruct (nullb (m_local m)) eqn:EL; destruct (nullb (m_swaps m)) eqn:ES; cbn [filter app map];
-    try rewrite NC; cbn [negb app map]; rewrite COL, list2msa_columnid.
-  - destruct (m_local m); [|discriminate EL]. destruct (m_swaps m); [|discriminate ES].
-    apply (ROWS msa_read0); reflexivity.
-  - destruct (m_local m); [|discriminate EL].
-    rewrite (SWP eq_refl), list2msa_crossed, swaps_roundtrip by apply (mo_swaps _ _ OK).
-    rewrite ROWS by reflexivity. reflexivity.
-  - destruct (m_swaps m); [|discriminate ES].
-    rewrite (LOC eq_refl), list2msa_local.
-    rewrite local_roundtrip by (destruct (mo_local _ _ OK); assumption).
-    rewrite ROWS by reflexivity. reflexivity.
-  - rewrite NC. cbn [negb app map].
-    rewrite (LOC eq_refl), list2msa_local.
-    rewrite local_roundtrip by (destruct (mo_local _ _ OK); assumption).
-    rewrite (SWP eq_refl), list2msa_crossed, swaps_roundtrip by apply (mo_swaps _ _ OK).
-    rewrite ROWS by reflexivity. reflexivity.
+  rewrite STL, STS, STC. rewrite map_map. rewrite rows_fold by exact RO.
+  unfold a3. cbn [r_ids r_taxa r_alm r_seqs r_local r_swaps r_cons app].
+  assert (map (fun p : Z * str * list str => degap (snd p)) rows = map degap (m_alm m)) as ->
+    by (rewrite <- U3, map_map; reflexivity).
+  rewrite U1, U2, U3. reflexivity.
 Qed.
 
 (* ------------------------------------------------------------------ *)
@@ -533,7 +571,7 @@ Proof.
     rewrite IH by (intros I; apply H; right; exact I). reflexivity.
 Qed.
 
-Definition ref_ok (ref : str) : Prop := ~ In 62 ref /\ ~ In 32 ref /\ ~ In 61 ref.
+Definition ref_ok (ref : str) : Prop := ~ In 62 ref /\ ~ In 34 ref.
 
 Lemma not_in_app : forall (x : Z) a b, ~ In x a -> ~ In x b -> ~ In x (a ++ b).
 Proof. intros x a b Ha Hb I. apply in_app_or in I. tauto. Qed.
@@ -547,47 +585,123 @@ Proof.
   intros [E|[E|I]]; [congruence|congruence|]. apply in_app_or in I. destruct I as [I|[E|[]]]; [exact (Hv I)|congruence].
 Qed.
 
-Lemma key_piece_attr : forall k v, ~ In 61 k -> ~ In 61 v -> key_piece (attr k v) = Some (k, v).
+Lemma join_no_sep : forall x (sep : str) xs, Forall (fun f => ~ In x f) xs -> ~ In x sep -> ~ In x (join sep xs).
 Proof.
-  intros k v Hk Hv. unfold key_piece, attr.
-  rewrite split_on_app_sep by exact Hk.
-  rewrite split_on_nosep.
-  - cbn [tl]. rewrite removelast_last. reflexivity.
-  - intros [E|I]; [discriminate E|]. apply in_app_or in I. destruct I as [I|[E|[]]]; [exact (Hv I)|discriminate E].
+  intros x sep. induction xs as [|f r IH]; intros F N I; [destruct I|].
+  inversion F as [|? ? Hf Hr]; subst. destruct r as [|g r'].
+  - exact (Hf I).
+  - rewrite join_cons2 in I. apply in_app_or in I. destruct I as [I|I]; [exact (Hf I)|].
+    apply in_app_or in I. destruct I as [I|I]; [exact (N I)|exact (IH Hr N I)].
 Qed.
 
-Definition hdr_tmp (ref : str) (k : Z) : str := s_msa ++ 32 :: attr s_idk (show_int k) ++ 32 :: attr s_refk ref.
-
-Lemma header_shape : forall ref k m, m_cons m = None -> msa_header ref k m = 60 :: hdr_tmp ref k ++ 62 :: [].
+(* the attribute scanner on name=QUOTE value QUOTE *)
+Lemma split_at_app : forall c v rest, ~ In c v -> split_at c (v ++ c :: rest) = Some (v, rest).
 Proof.
-  intros ref k m E. unfold msa_header, hdr_tmp. rewrite E. rewrite app_nil_l.
-  rewrite <- !app_assoc. cbn [app]. rewrite <- !app_assoc. reflexivity.
+  intros c. induction v as [|x v IH]; intros rest H.
+  - cbn [app split_at]. rewrite Z.eqb_refl. reflexivity.
+  - cbn [app split_at]. destruct (x =? c) eqn:E; [apply Z.eqb_eq in E; exfalso; apply H; left; exact E|].
+    rewrite IH by (intros I; apply H; right; exact I). reflexivity.
 Qed.
 
-Lemma header_parse : forall ref k m, m_cons m = None -> ref_ok ref ->
+Lemma match_here_key : forall v rest k' acc, nospace k' -> ~ In 61 k' -> ~ In 34 v ->
+  match_here acc (k' ++ 61 :: 34 :: v ++ 34 :: rest) = Some (rev acc ++ k', v, rest).
+Proof.
+  intros v rest. induction k' as [|c k' IH]; intros acc NS N61 NV.
+  - cbn [app match_here]. change (61 =? 61) with true. change (is_quote 34) with true. cbv iota.
+    rewrite split_at_app by exact NV. rewrite app_nil_r. reflexivity.
+  - cbn [app match_here].
+    assert (c =? 61 = false) as -> by (apply Z.eqb_neq; intros E; apply N61; left; exact E).
+    cbv iota.
+    assert (is_space c = false) as -> by (eapply nospace_in; [exact NS|left; reflexivity]).
+    rewrite IH.
+    + cbn [rev]. rewrite <- app_assoc. reflexivity.
+    + unfold nospace in *. cbn [forallb] in NS. apply andb_true_iff in NS. destruct NS as [_ NS]. exact NS.
+    + intros I. apply N61. right. exact I.
+    + exact NV.
+Qed.
+
+Lemma match_attr : forall k v rest, k <> [] -> nospace k -> ~ In 61 k -> ~ In 34 v ->
+  match_start (attr k v ++ rest) = Some (k, v, rest).
+Proof.
+  intros k v rest NE NS N61 NV. destruct k as [|c k']; [congruence|].
+  unfold attr. rewrite <- !app_assoc. cbn [app]. rewrite <- !app_assoc. cbn [app match_start].
+  assert (is_space c = false) as -> by (eapply nospace_in; [exact NS|left; reflexivity]).
+  rewrite (match_here_key v rest k' [c]).
+  - reflexivity.
+  - unfold nospace in *. cbn [forallb] in NS. apply andb_true_iff in NS. destruct NS as [_ NS]. exact NS.
+  - intros I. apply N61. right. exact I.
+  - exact NV.
+Qed.
+
+Lemma findall_skip : forall p rest, findall_attrs (length p) (p ++ rest) = findall_attrs 0 rest.
+Proof. induction p as [|x p IH]; intros rest; [reflexivity|]. cbn [length app findall_attrs]. apply IH. Qed.
+
+Lemma findall_space : forall s, findall_attrs 0 (32 :: s) = findall_attrs 0 s.
+Proof. reflexivity. Qed.
+
+Lemma findall_attr : forall k v rest, k <> [] -> nospace k -> ~ In 61 k -> ~ In 34 v ->
+  findall_attrs 0 (attr k v ++ rest) = (k, v) :: findall_attrs 0 rest.
+Proof.
+  intros k v rest NE NS N61 NV. pose proof (match_attr k v rest NE NS N61 NV) as M.
+  destruct (attr k v) as [|c a'] eqn:E.
+  - unfold attr in E. destruct k; [congruence|discriminate E].
+  - cbn [app] in *. cbn [findall_attrs]. rewrite M. rewrite app_length.
+    replace (length a' + length rest - length rest)%nat with (length a') by lia.
+    rewrite findall_skip. reflexivity.
+Qed.
+
+Definition keys_of (ref : str) (k : Z) (m : msa) : list (str * str) :=
+  (s_idk, show_int k) :: (s_refk, ref)
+  :: match m_cons m with Some c => [(s_consensus, join [32] c)] | None => [] end.
+
+Lemma skipn_app_length : forall {A} (p r : list A), skipn (length p) (p ++ r) = r.
+Proof. intros A. induction p as [|x p IH]; intros r; [reflexivity|]. cbn [length app skipn]. apply IH. Qed.
+
+Lemma header_parse : forall ref k m n, msa_ok m n -> ref_ok ref ->
   block_dtype (msa_header ref k m) = Some s_msa
-  /\ block_keys (msa_header ref k m) = Some [(s_idk, show_int k); (s_refk, ref)].
+  /\ block_keys (msa_header ref k m) = Some (keys_of ref k m).
 Proof.
-  intros ref k m E [R62 [R32 R61]]. rewrite (header_shape ref k m E).
-  assert (N62 : ~ In 62 (hdr_tmp ref k)).
-  { unfold hdr_tmp. apply not_in_app; [intros I; unfold s_msa in I; cbn [In] in I; repeat (destruct I as [I|I]; [discriminate I|]); exact I|].
+  intros ref k m n OK [R62 R34]. unfold msa_header.
+  assert (MSA32 : ~ In 32 s_msa) by (intros I; unfold s_msa in I; cbn [In] in I; repeat (destruct I as [I|I]; [discriminate I|]); exact I).
+  assert (MSA62 : ~ In 62 s_msa) by (intros I; unfold s_msa in I; cbn [In] in I; repeat (destruct I as [I|I]; [discriminate I|]); exact I).
+  assert (CONS : match m_cons m with
+                 | Some c => ~ In 62 (join [32] c) /\ ~ In 34 (join [32] c)
+                 | None => True end).
+  { pose proof (mo_cons _ _ OK) as MC. destruct (m_cons m) as [c|]; [|exact I]. destruct MC as [_ F]. split.
+    - apply join_no_sep; [|intros [E|[]]; discriminate E]. eapply Forall_impl; [|exact F]. intros s [_ [_ [X _]]]. exact X.
+    - apply join_no_sep; [|intros [E|[]]; discriminate E]. eapply Forall_impl; [|exact F]. intros s [_ [X _]]. exact X. }
+  assert (IDK : ~ In 62 s_idk /\ ~ In 61 s_idk /\ nospace s_idk) by (repeat split; try reflexivity; intros [X|[X|[]]]; discriminate X).
+  assert (REFK : ~ In 62 s_refk /\ ~ In 61 s_refk /\ nospace s_refk) by (repeat split; try reflexivity; intros [X|[X|[X|[]]]]; discriminate X).
+  assert (CONK : ~ In 62 s_consensus /\ ~ In 61 s_consensus /\ nospace s_consensus).
+  { repeat split; try reflexivity; intros I; unfold s_consensus in I; cbn [In] in I; repeat (destruct I as [I|I]; [discriminate I|]); exact I. }
+  assert (N62 : ~ In 62 (msa_tag ref k m)).
+  { unfold msa_tag, cons_attr. apply not_in_app; [exact MSA62|].
     intros [X|I]; [discriminate X|]. apply in_app_or in I. destruct I as [I|[X|I]]; [|discriminate X|].
-    - revert I. apply attr_no; [intros [X|[X|[]]]; discriminate X|apply show_int_no; [lia|reflexivity]|lia|lia].
-    - revert I. apply attr_no; [intros [X|[X|[X|[]]]]; discriminate X|exact R62|lia|lia]. }
-  assert (SP : split_on 32 (hdr_tmp ref k) = [s_msa; attr s_idk (show_int k); attr s_refk ref]).
-  { unfold hdr_tmp. rewrite split_on_app_sep by (intros I; unfold s_msa in I; cbn [In] in I; repeat (destruct I as [I|I]; [discriminate I|]); exact I).
-    rewrite split_on_app_sep by (apply attr_no; [intros [X|[X|[]]]; discriminate X|apply show_int_no; [lia|reflexivity]|lia|lia]).
-    rewrite split_on_nosep by (apply attr_no; [intros [X|[X|[X|[]]]]; discriminate X|exact R32|lia|lia]).
-    reflexivity. }
-  assert (M32 : memc 32 (hdr_tmp ref k) = true).
+    - revert I. apply attr_no; [apply IDK|apply show_int_no; [lia|reflexivity]|lia|lia].
+    - apply in_app_or in I. destruct I as [I|I].
+      + revert I. apply attr_no; [apply REFK|exact R62|lia|lia].
+      + destruct (m_cons m) as [c|]; [|destruct I]. destruct I as [X|I]; [discriminate X|].
+        revert I. apply attr_no; [apply CONK|apply CONS|lia|lia]. }
+  unfold block_dtype, block_keys. rewrite take_until_app by exact N62.
+  assert (M32 : memc 32 (msa_tag ref k m) = true).
   { unfold memc. apply existsb_exists. exists 32. split; [|reflexivity].
-    unfold hdr_tmp. apply in_or_app. right. left. reflexivity. }
-  unfold block_dtype, block_keys. rewrite take_until_app by exact N62. rewrite M32, SP. split; [reflexivity|].
-  cbn [tl map all_some].
-  rewrite key_piece_attr by first [solve [intros [X|[X|[]]]; discriminate X]|apply show_int_no; [lia|reflexivity]].
-  rewrite key_piece_attr by first [solve [intros [X|[X|[X|[]]]]; discriminate X]|exact R61].
-  reflexivity.
+    unfold msa_tag. apply in_or_app. right. left. reflexivity. }
+  rewrite M32.
+  assert (HD : hd [] (split_on 32 (msa_tag ref k m)) = s_msa).
+  { unfold msa_tag. rewrite split_on_app_sep by exact MSA32. reflexivity. }
+  rewrite HD. split; [reflexivity|]. f_equal.
+  unfold msa_tag. rewrite skipn_app_length. rewrite findall_space.
+  rewrite findall_attr; [|discriminate|apply IDK|apply IDK|apply show_int_no; [lia|reflexivity]].
+  cbn [app]. rewrite findall_space.
+  rewrite findall_attr; [|discriminate|apply REFK|apply REFK|exact R34].
+  unfold keys_of, cons_attr. destruct (m_cons m) as [c|]; [|reflexivity].
+  rewrite findall_space. rewrite <- (app_nil_r (attr s_consensus (join [32] c))).
+  rewrite findall_attr; [reflexivity|discriminate|apply CONK|apply CONK|apply CONS].
 Qed.
+
+Lemma keys_lookup : forall ref k m,
+  assoc_last s_idk (keys_of ref k m) = Some (show_int k) /\ assoc_last s_refk (keys_of ref k m) = Some ref.
+Proof. intros ref k m. unfold keys_of. destruct (m_cons m); split; reflexivity. Qed.
 
 Lemma prefixb_refl_app : forall p r, prefixb p (p ++ r) = true.
 Proof. induction p as [|x p IH]; intros r; [reflexivity|]. cbn [app prefixb]. rewrite Z.eqb_refl. apply IH. Qed.
@@ -639,9 +753,6 @@ Definition entry_ok (e : Z * list str * msa) : Prop :=
 Definition blk_of (ref : str) (e : Z * list str * msa) : block :=
   mk_block (msa_header ref (fst (fst e)) (snd e)) s_msa (msa_body (snd (fst e)) (snd e)).
 
-Lemma msa_okb_cons : forall m, msa_okb m = true -> m_cons m = None.
-Proof. intros m H. apply (mo_cons _ _ (msa_okb_ok m H)). Qed.
-
 Lemma scan_one_block : forall ref e a, ref_ok ref -> entry_ok e -> good a ->
   fold_left read_step (msa_block ref e) a
   = mk_racc false None (ra_data a) (blk_of ref e :: ra_blocks a) (ra_meta a).
@@ -649,10 +760,10 @@ Proof.
   intros ref [[k stamp] m] a RO [OK FS] [G1 G2]. cbn [fst snd] in *.
   unfold msa_block. cbn [fold_left].
   rewrite (read_step_skip a [35]) by (try (split; assumption); reflexivity).
-  destruct (header_parse ref k m (msa_okb_cons m OK) RO) as [HD HK].
+  destruct (header_parse ref k m _ (msa_okb_ok m OK) RO) as [HD HK].
   assert (ST : read_step a (msa_header ref k m)
                = mk_racc false (Some (msa_header ref k m, s_msa, [])) (ra_data a) (ra_blocks a) (ra_meta a)).
-  { unfold read_step. rewrite G1, G2, HD, HK. rewrite (header_shape ref k m (msa_okb_cons m OK)). reflexivity. }
+  { unfold read_step. rewrite G1, G2, HD, HK. reflexivity. }
   rewrite ST.
   rewrite scan_block_body; [reflexivity|apply msa_body_no_lt, FS|reflexivity].
 Qed.
@@ -678,16 +789,14 @@ Proof.
   cbn [racc0 ra_data ra_blocks ra_meta]. rewrite app_nil_r. reflexivity.
 Qed.
 
-Lemma read_msas_cons : forall b rest K R k m ms,
-  b_dtype b = s_msa -> block_keys (b_head b) = Some [(s_idk, K); (s_refk, R)] -> parse_int K = Some k ->
+Lemma read_msas_cons : forall b rest keys K R k m ms,
+  b_dtype b = s_msa -> block_keys (b_head b) = Some keys ->
+  assoc_last s_idk keys = Some K -> assoc_last s_refk keys = Some R -> parse_int K = Some k ->
   read_msa_body (b_body b) = Ok m -> read_msas rest = Ok ms ->
   read_msas (b :: rest) = Ok ((R, k, m) :: ms).
 Proof.
-  intros b rest K R k m ms H1 H2 H3 H4 H5. cbn [read_msas]. rewrite H1.
-  change (str_eqb s_msa s_msa) with true. cbv iota. rewrite H2.
-  change (assoc_str s_idk [(s_idk, K); (s_refk, R)]) with (Some K).
-  change (assoc_str s_refk [(s_idk, K); (s_refk, R)]) with (Some R).
-  cbv iota. rewrite H3, H4, H5. reflexivity.
+  intros b rest keys K R k m ms H1 H2 A1 A2 H3 H4 H5. cbn [read_msas]. rewrite H1.
+  change (str_eqb s_msa s_msa) with true. cbv iota. rewrite H2, A1, A2, H3, H4, H5. reflexivity.
 Qed.
 
 Lemma read_msas_blocks : forall ref ms, ref_ok ref -> Forall entry_ok ms ->
@@ -695,11 +804,14 @@ Lemma read_msas_blocks : forall ref ms, ref_ok ref -> Forall entry_ok ms ->
 Proof.
   intros ref. induction ms as [|[[k stamp] m] ms IH]; intros RO F; [reflexivity|].
   inversion F as [|? ? [OK FS] Hr]; subst. cbn [fst snd] in *.
-  destruct (header_parse ref k m (msa_okb_cons m OK) RO) as [_ HK].
+  destruct (header_parse ref k m _ (msa_okb_ok m OK) RO) as [_ HK].
+  destruct (keys_lookup ref k m) as [A1 A2].
   cbn [map fst snd].
-  apply (read_msas_cons _ _ (show_int k) ref k (expected_read m)).
+  apply (read_msas_cons _ _ (keys_of ref k m) (show_int k) ref k (expected_read m)).
   - reflexivity.
   - exact HK.
+  - exact A1.
+  - exact A2.
   - apply parse_show_int.
   - apply msa_body_roundtrip; assumption.
   - apply IH; assumption.
